@@ -1203,6 +1203,81 @@ func (w *world) runCoordinatorStart(boot conf, r *rng.R) freeRec {
 	return f
 }
 
+// runTTL: a temporary override (POST /config?ttlSecond=N, what BR / lightning do while they import) of max-snapshot-count, then
+// ordinary updates that do not name that item through the read-modify-write paths, then expiry: the temporary value must never reach
+// the config key, and after expiry the item is what it was
+func (w *world) runTTL(boot conf, r *rng.R) freeRec {
+	w.reset(boot, false)
+	w.steps = nil
+	w.unknown = false
+	f := freeRec{Via: "ttl-override", Boot: boot}
+	start := w.snapshot("ROk")
+	before := w.fullServed()
+	req := httptest.NewRequest("POST", "/pd/api/v1/config?ttlSecond=2", bytes.NewReader(mustJSON(map[string]interface{}{"schedule.max-snapshot-count": 99})))
+	rec := httptest.NewRecorder()
+	w.api.ServeHTTP(rec, req)
+	if rec.Code != http.StatusOK {
+		w.notes["ttl: the override was refused: "+rec.Body.String()] = true
+	}
+	setAt := time.Now()
+	sn := w.snapshot("ROk")
+	w.steps = append(w.steps, jstep{Path: "ttl-set", Body: `{"schedule.max-snapshot-count":99} ttlSecond=2`, Code: rec.Code, Res: "ROk", Before: before, After: w.fullServed(), Served: sn.Served, Reload: sn.Reload})
+	f.Ops = append(f.Ops, op{K: "ttl-set"})
+	cur := sn.Served
+	want := start.Served // what must be served once the override has expired: the start, updated by what is accepted below
+	for k := 0; k < 3; k++ {
+		prevReload := w.snapshot("ROk").Reload
+		// an unrelated scheduling item, through /config/schedule (whole section read from the getter) or POST /config
+		t := cur.Sched
+		t.Pay = start.Served.Sched.Pay // the request body is built from what the harness knows to be configured, not from the getter
+		t.Tol = pickZ(r, 0, 50, 5000)
+		t.High = pickZ(r, 100, 600, 700)
+		t.Low = t.High + pickZ(r, 50, 100)
+		t.Dis = make([]bool, 6)
+		o := op{K: "sched", S: t}
+		var after snap
+		if k%2 == 0 {
+			// the real read-modify-write of a client: GET the section, change one item, POST it back
+			cfg := w.s.GetScheduleConfig()
+			cfg.TolerantSizeRatio = float64(t.Tol) / 1000
+			cfg.HighSpaceRatio, cfg.LowSpaceRatio = float64(t.High)/1000, float64(t.Low)/1000
+			cfg.SchedulersPayload = nil
+			b0 := w.fullServed()
+			code, resp := w.post("/config/schedule", mustJSON(cfg))
+			res := "ROk"
+			if code != http.StatusOK {
+				res = w.errRes(errors.New(resp))
+			}
+			after = w.snapshot(res)
+			w.steps = append(w.steps, jstep{Path: "/config/schedule", Body: "GET /config/schedule, tolerant-size-ratio / space ratios changed, POST back", Code: code, Res: res, Before: b0, After: w.fullServed(),
+				Served: after.Served, Reload: after.Reload})
+		} else {
+			b0 := w.fullServed()
+			code, resp := w.post("/config", mustJSON(map[string]interface{}{"schedule.tolerant-size-ratio": float64(t.Tol) / 1000}))
+			res := "ROk"
+			if code != http.StatusOK {
+				res = w.errRes(errors.New(resp))
+			}
+			after = w.snapshot(res)
+			w.steps = append(w.steps, jstep{Path: "/config", Body: fmt.Sprintf(`{"schedule.tolerant-size-ratio":%v}`, float64(t.Tol)/1000), Code: code, Res: res, Before: b0, After: w.fullServed(),
+				Served: after.Served, Reload: after.Reload})
+		}
+		w.steps = append(w.steps, jstep{Path: "ttl-window-stored", Res: "ROk", Before: "", After: "", Served: after.Reload, Reload: prevReload})
+		f.Ops = append(f.Ops, o, op{K: "ttl-window-stored"})
+		cur = after.Served
+		want.Sched.Pay = start.Served.Sched.Pay
+	}
+	if d := 2300*time.Millisecond - time.Since(setAt); d > 0 {
+		time.Sleep(d)
+	}
+	end := w.snapshot("ROk")
+	w.steps = append(w.steps, jstep{Path: "ttl-expired", Res: "ROk", Served: end.Served, Reload: want})
+	w.steps = append(w.steps, jstep{Path: "after-ttl-expired", Res: "ROk", Before: w.fullServed(), After: w.fullServed(), Served: end.Served, Reload: end.Reload})
+	f.Ops = append(f.Ops, op{K: "ttl-expired"}, op{K: "ttl-expired"})
+	f.Steps = w.steps
+	return f
+}
+
 func (w *world) runFree(boot conf, r *rng.R, nops int, useEtcd bool) freeRec {
 	w.reset(boot, useEtcd)
 	w.steps = nil
@@ -1255,6 +1330,7 @@ func main() {
 	tier := flag.String("tier", "quick", "")
 	corpus := flag.String("corpus", "", "json file of fixed cases run first")
 	replay := flag.String("replay", "", "json file with cases (or an evidence replay file)")
+	nttl := flag.Int("ttl", 2, "number of cases with a temporary (ttlSecond) override followed by ordinary updates and the expiry (about 2.5 s each)")
 	ncoord := flag.Int("coord", 2, "number of cases with an update before the real coordinator start (about 3.5 s each)")
 	nfree := flag.Int("free", 40, "number of model-free histories of HTTP requests (replication-mode requests included)")
 	flag.Parse()
@@ -1389,6 +1465,11 @@ func main() {
 			r := master.Fork(uint64(1000000 + k))
 			frees = append(frees, w.runFree(defaultBoot(r), r, 8+r.Intn(14), k%6 == 5))
 			R.Count("stream:api-free")
+		}
+		for k := 0; k < *nttl; k++ {
+			r := master.Fork(uint64(3000000 + k))
+			frees = append(frees, w.runTTL(defaultBoot(r), r))
+			R.Count("stream:ttl-override")
 		}
 		for k := 0; k < *ncoord; k++ {
 			r := master.Fork(uint64(2000000 + k))
